@@ -216,6 +216,9 @@ struct TableCheck
 				pair_extrema(i, k, umin, umax);
 				ld rmin = p < 0 ? (ld)p * umax : (ld)p * umin, rmax = p < 0 ? (ld)p * umin : (ld)p * umax;
 				double tv = tolv(seg[i], p) + tolv(seg[k], p);
+				// a limit that is a tabulated abscissa may be located in the segment to its left by the calls inside Local_*/Integrate
+				if(L[i].knot && seg[i] > 0) tv += tolv(seg[i] - 1, p);
+				if(L[k].knot && seg[k] > 0) tv += tolv(seg[k] - 1, p);
 				double len = L[k].x - L[i].x;
 				if(!(m >= (double)rmin * len - tl - tv * len && m <= (double)rmax * len + tl + tv * len)) fail(part, p, lim, "integral_outside_min_max_times_length", "Integrate=" + mc::dec(m) + " not in [" + mc::dec((double)rmin * len) + "," + mc::dec((double)rmax * len) + "]");
 				pristine();
